@@ -540,3 +540,99 @@ Proof.
     apply parse_list_nonempty in E2.
     destruct l as [|y l']; [congruence|]. intro H; inversion H; subst; right; eexists; split; eauto; cbn; lia.
 Qed.
+
+
+(** * [Correct] only depends on the order of the binding powers *)
+Section Transfer.
+  Variable fl : flags.
+  Variables a b : N -> N.
+  Hypothesis iso : forall i j, (a i <? a j) = (b i <? b j).
+
+  Lemma iso_le i j : (a i <=? a j) = (b i <=? b j).
+  Proof. rewrite !N.leb_antisym, iso. reflexivity. Qed.
+
+  Lemma lspine_gtb_iso k e : lspine_gtb a (a k) e = lspine_gtb b (b k) e.
+  Proof. induction e; cbn [lspine_gtb]; rewrite ?iso; congruence. Qed.
+
+  Lemma rspine_geb_iso k e : rspine_geb a fl (a k) e = rspine_geb b fl (b k) e.
+  Proof.
+    induction e; cbn [rspine_geb]; rewrite ?iso_le; try congruence.
+    destruct esc; congruence.
+  Qed.
+
+  Lemma forallb_ext' {A} (f g : A -> bool) l : (forall x, f x = g x) -> forallb f l = forallb g l.
+  Proof. intro H. induction l; cbn; congruence. Qed.
+
+  Lemma interiorb_iso e : interiorb a fl e = interiorb b fl e.
+  Proof.
+    destruct e; cbn [interiorb]; rewrite ?lspine_gtb_iso, ?rspine_geb_iso; try reflexivity;
+      try (apply forallb_ext'; intro; apply lspine_gtb_iso);
+      try (destruct esc; [apply lspine_gtb_iso|reflexivity]).
+  Qed.
+
+  Lemma localb_iso e : localb a fl e = localb b fl e.
+  Proof.
+    unfold localb. rewrite interiorb_iso.
+    destruct (lhead e) as [[k l]|]; destruct (rhead fl e) as [[k' r]|];
+      rewrite ?rspine_geb_iso, ?lspine_gtb_iso; reflexivity.
+  Qed.
+
+  Lemma wfb_all_iso l :
+    Forall (fun x => wfb a fl x = wfb b fl x) l ->
+    (fix all (l : list expr) : bool := match l with [] => true | x :: r => wfb a fl x && all r end) l =
+    (fix all (l : list expr) : bool := match l with [] => true | x :: r => wfb b fl x && all r end) l.
+  Proof. induction 1; [reflexivity|]. congruence. Qed.
+
+  Lemma wfb_iso e : wfb a fl e = wfb b fl e.
+  Proof.
+    induction e using expr_rect'; cbn [wfb]; rewrite localb_iso; try congruence.
+    - rewrite (wfb_all_iso l) by assumption. reflexivity.
+    - rewrite (wfb_all_iso l) by assumption. congruence.
+  Qed.
+
+  Theorem correctb_iso t ts : correctb fl a t ts = correctb fl b t ts.
+  Proof. unfold correctb. rewrite wfb_iso, lspine_gtb_iso. reflexivity. Qed.
+
+  Theorem Correct_gen_iso t ts : Correct_gen fl a t ts <-> Correct_gen fl b t ts.
+  Proof. rewrite <- !correctb_iff, correctb_iso. tauto. Qed.
+End Transfer.
+
+(** The generated side condition [published_order] gives the order isomorphism for all keys. *)
+Lemma forallb_seq_N (f : N -> bool) n :
+  forallb f (map N.of_nat (seq 0 n)) = true -> forall i, i < N.of_nat n -> f i = true.
+Proof.
+  intros H i Hi. rewrite forallb_forall in H. apply H. apply in_map_iff.
+  exists (N.to_nat i). split; [lia|]. apply in_seq. lia.
+Qed.
+
+Lemma nthN_out l k : N.of_nat (length l) <= k -> nthN l k = 0.
+Proof. intro H. unfold nthN. apply nth_overflow. lia. Qed.
+
+Theorem published_order_iso f lv :
+  published_order f lv = true ->
+  forall i j, (pinned f i <? pinned f j) = (nthN lv i <? nthN lv j).
+Proof.
+  unfold published_order, same_order, pinned. intro H.
+  apply andb_true_iff in H. destruct H as [H H0]. apply N.eqb_eq in H0.
+  apply andb_true_iff in H. destruct H as [H Hall].
+  apply andb_true_iff in H. destruct H as [Hla Hlb]. apply N.eqb_eq in Hla. apply N.eqb_eq in Hlb.
+  set (pa := pinned_levels f) in *.
+  assert (Hcmp : forall i j, i < n_keys -> j < n_keys ->
+            (nthN pa i <? nthN pa j) = (nthN lv i <? nthN lv j)).
+  { intros i j Hi Hj.
+    pose proof (forallb_seq_N _ _ Hall i Hi) as H1. cbv beta in H1.
+    pose proof (forallb_seq_N _ _ H1 j Hj) as H2. cbv beta in H2.
+    destruct (N.compare_spec (nthN pa i) (nthN pa j)); destruct (N.compare_spec (nthN lv i) (nthN lv j));
+      try discriminate; lia. }
+  assert (Hpu : nthN pa K_UNKNOWN = 0).
+  { subst pa. destruct f; vm_compute; reflexivity. }
+  assert (HU : K_UNKNOWN < n_keys) by (vm_compute; reflexivity).
+  intros i j.
+  destruct (N.ltb_spec i n_keys) as [Hi|Hi]; destruct (N.ltb_spec j n_keys) as [Hj|Hj].
+  - apply Hcmp; assumption.
+  - rewrite (nthN_out pa j), (nthN_out lv j) by lia.
+    destruct (N.ltb_spec (nthN pa i) 0); destruct (N.ltb_spec (nthN lv i) 0); lia.
+  - rewrite (nthN_out pa i), (nthN_out lv i) by lia.
+    pose proof (Hcmp K_UNKNOWN j HU Hj) as Hc. rewrite Hpu, H0 in Hc. exact Hc.
+  - rewrite (nthN_out pa i), (nthN_out lv i), (nthN_out pa j), (nthN_out lv j) by lia. reflexivity.
+Qed.
